@@ -203,6 +203,11 @@ func serialize(sc *slayers.SCION, l4 string, hbh, e2e bool, dport uint16, payloa
 		m := &slayers.SCMP{TypeCode: slayers.CreateSCMPTypeCode(slayers.SCMPTypeEchoRequest, 0)}
 		m.SetNetworkLayerForChecksum(sc)
 		ls = append(ls, m, &slayers.SCMPEcho{Identifier: 9, SeqNumber: 7}, gopacket.Payload(payload))
+	case "scmperr":
+		*next = slayers.L4SCMP
+		m := &slayers.SCMP{TypeCode: slayers.CreateSCMPTypeCode(slayers.SCMPTypeDestinationUnreachable, 1)}
+		m.SetNetworkLayerForChecksum(sc)
+		ls = append(ls, m, &slayers.SCMPDestinationUnreachable{}, gopacket.Payload(payload))
 	case "bfd":
 		*next = slayers.L4BFD
 		ls = append(ls, &layers.BFD{Version: 1, State: layers.BFDStateDown, DetectMultiplier: 3,
@@ -217,6 +222,50 @@ func serialize(sc *slayers.SCION, l4 string, hbh, e2e bool, dport uint16, payloa
 	buf := gopacket.NewSerializeBuffer()
 	must(gopacket.SerializeLayers(buf, gopacket.SerializeOptions{FixLengths: true, ComputeChecksums: true}, ls...))
 	return append([]byte(nil), buf.Bytes()...)
+}
+
+// Xover builds a two-segment packet whose segment change happens at the local AS: it arrives on
+// interface 2 at the last hop of an up segment (against construction direction) and leaves through
+// interface eg (1 or 3) on the first hop of a down segment. Both local hop fields carry valid MACs.
+func Xover(eg uint16, l4 string, badSecond bool, payload []byte) []byte {
+	ts := uint32(time.Now().Add(-60 * time.Second).Unix())
+	beta0, beta1 := uint16(0x4321), uint16(0x2222)
+	info0 := path.InfoField{ConsDir: false, SegID: beta0, Timestamp: ts}
+	info1 := path.InfoField{ConsDir: true, SegID: beta1, Timestamp: ts}
+	a := path.HopField{ConsIngress: 0, ConsEgress: 2, ExpTime: 63}
+	a.Mac = mac(info0, a)
+	info0.SegID = beta0 ^ binary.BigEndian.Uint16(a.Mac[:2])
+	b := path.HopField{ConsIngress: 0, ConsEgress: eg, ExpTime: 63}
+	b.Mac = mac(info1, b)
+	if badSecond {
+		b.Mac[3] ^= 0x55
+	}
+	dec := &scion.Decoded{
+		Base: scion.Base{
+			PathMeta: scion.MetaHdr{CurrINF: 0, CurrHF: 1, SegLen: [3]uint8{2, 2, 0}},
+			NumINF:   2, NumHops: 4,
+		},
+		InfoFields: []path.InfoField{info0, info1},
+		HopFields: []path.HopField{
+			{ConsIngress: 7, ConsEgress: 0, ExpTime: 63, Mac: [6]byte{1, 1, 1, 1, 1, 1}}, a, b,
+			{ConsIngress: 8, ConsEgress: 0, ExpTime: 63, Mac: [6]byte{2, 2, 2, 2, 2, 2}}},
+	}
+	dst := Child2IA
+	if eg == 1 {
+		dst = FarIA
+	}
+	sc := &slayers.SCION{FlowID: 0x54321, SrcIA: ChildIA, DstIA: dst, PathType: scion.PathType, Path: dec}
+	must(sc.SetSrcAddr(addr.HostIP(HostAddr)))
+	must(sc.SetDstAddr(addr.HostIP(FarHost)))
+	return serialize(sc, l4, false, false, 40001, payload)
+}
+
+// ScmpError builds an SCMP error message (destination unreachable) travelling 1 -> 2 whose quote is
+// the packet quoted.
+func ScmpError(s Spec, quoted []byte) []byte {
+	s.L4 = "scmperr"
+	s.Payload = quoted
+	return Build(s)
 }
 
 // OneHop builds a one-hop-path packet (what a beacon or an inter-AS BFD packet uses) arriving on
@@ -308,6 +357,11 @@ func Corpus(payload []byte, withSibling bool) []Named {
 		udp("unknown-egress-1", Spec{Via: 1, In: 1, Eg: 9, ConsDir: true, Pos: 1, SrcIA: FarIA, DstIA: ChildIA, SrcHost: FarHost, DstHost: HostAddr}),
 		udp("epic-1-2", Spec{Via: 1, In: 1, Eg: 2, ConsDir: true, Pos: 1, SrcIA: FarIA, DstIA: ChildIA, SrcHost: FarHost, DstHost: HostAddr, Epic: true}),
 		udp("svc-inbound-1", Spec{Via: 1, In: 1, Eg: 0, ConsDir: true, Pos: 2, SrcIA: FarIA, DstIA: LocalIA, SrcHost: FarHost, DstHost: HostAddr, DstPort: 80}),
+		{"xover-2-1", 2, Xover(1, "udp", false, payload)},
+		{"xover-2-1-bad", 2, Xover(1, "udp", true, payload)},
+		{"xover-2-1-tr", 2, Xover(1, "trreq", false, payload)},
+		{"scmperr-1-2", 1, ScmpError(Spec{Via: 1, In: 1, Eg: 2, ConsDir: true, Pos: 1, SrcIA: FarIA, DstIA: ChildIA, SrcHost: FarHost, DstHost: HostAddr}, payload)},
+		{"scmperr-badmac-1", 1, ScmpError(Spec{Via: 1, In: 1, Eg: 2, ConsDir: true, Pos: 1, SrcIA: FarIA, DstIA: ChildIA, SrcHost: FarHost, DstHost: HostAddr, BadMAC: true}, payload)},
 		{"ohp-in-1", 1, OneHop(1, 0, "udp", payload)},
 		{"ohp-out-2", 0, OneHop(0, 2, "udp", payload)},
 		{"bfd-ohp-1", 1, OneHop(1, 0, "bfd", nil)},
@@ -318,6 +372,7 @@ func Corpus(payload []byte, withSibling bool) []Named {
 			udp("to-sibling-1-3", Spec{Via: 1, In: 1, Eg: 3, ConsDir: true, Pos: 1, SrcIA: FarIA, DstIA: Child2IA, SrcHost: FarHost, DstHost: HostAddr}),
 			udp("from-sibling-3-1", Spec{Via: 3, In: 1, Eg: 3, ConsDir: false, Pos: 1, SrcIA: Child2IA, DstIA: FarIA, SrcHost: HostAddr, DstHost: FarHost}),
 			Named{"bfd-empty-3", 3, EmptyPath("bfd", nil)},
+			Named{"xover-2-3", 2, Xover(3, "udp", false, payload)},
 		)
 	}
 	return c
